@@ -277,6 +277,9 @@ func gen(r *rng.R, t *gt.T, c Cfg, depth int) cty.Value {
 			if et.K == gt.Dyn {
 				v = cty.DynamicVal
 			}
+			if r.Chance(12) && et.K != gt.Dyn {
+				v = cty.NullVal(v.Type())
+			}
 			m[[]string{"a", "b", "c", "k1", "é", "zz"}[r.Intn(6)]] = v
 		}
 		return cty.MapVal(m)
